@@ -431,6 +431,30 @@ void cmb_timeseries_sort_t(struct cmb_timeseries *tsp)
 }
 
 /*
+ * The weighted quantile of x-values sorted in ascending order: the first sample
+ * whose cumulative weight reaches wq. At most wq of the total weight lies
+ * strictly below the returned value and at most (total - wq) strictly above it.
+ * Interpolating between neighbouring samples does not have this property when
+ * the weights differ, and has no answer when the first sample already holds
+ * more than wq.
+ */
+static double timeseries_wquantile(const uint64_t un,
+                                   const double xa[un],
+                                   const double wcum[un],
+                                   const double wq)
+{
+    cmb_assert_debug(un > 0u);
+    for (uint64_t ui = 0u; ui < un; ui++) {
+        if (wcum[ui] >= wq) {
+            return xa[ui];
+        }
+    }
+
+    /* Not reached for non-negative weights and wq <= wcum[un - 1] */
+    return xa[un - 1u];
+}
+
+/*
  * Takes a copy before sorting, leaving tsp unchanged.
  */
 double cmb_timeseries_median(const struct cmb_timeseries *tsp)
@@ -455,16 +479,7 @@ double cmb_timeseries_median(const struct cmb_timeseries *tsp)
     }
 
     const double wmid = 0.5 * wsum;
-    double r = 0.0;
-     for (uint64_t ui = 0u; ui < un - 1; ui++) {
-        if ((wcum[ui] <= wmid) && (wcum[ui + 1] > wmid)) {
-            cmb_assert_debug(wcum[ui + 1] > wcum[ui]);
-            r = dsp->xa[ui] + (dsp->xa[ui + 1]
-                            - dsp->xa[ui]) * (wmid - wcum[ui])
-                               / (wcum[ui + 1] - wcum[ui]);
-            break;
-        }
-    }
+    const double r = timeseries_wquantile(un, dsp->xa, wcum, wmid);
 
     cmi_free(wcum);
     cmb_timeseries_reset(&tmp_ts);
@@ -501,31 +516,9 @@ void cmb_timeseries_fivenum_print(const struct cmb_timeseries *tsp,
     const double w050 = 0.50 * wsum;
     const double w075 = 0.75 * wsum;
 
-    double x025 = 0.0;
-    double x050 = 0.0;
-    double x075 = 0.0;
-    for (uint64_t ui = 0u; ui < un - 1; ui++) {
-        if ((wcum[ui] <= w025) && (wcum[ui + 1] > w025)) {
-            cmb_assert_debug(wcum[ui + 1] > wcum[ui]);
-            x025 = dsp->xa[ui] + (dsp->xa[ui + 1]
-                               - dsp->xa[ui]) * (w025 - wcum[ui])
-                                  / (wcum[ui + 1] - wcum[ui]);
-        }
-
-        if ((wcum[ui] <= w050) && (wcum[ui + 1] > w050)) {
-            cmb_assert_debug(wcum[ui + 1] > wcum[ui]);
-            x050 = dsp->xa[ui] + (dsp->xa[ui + 1]
-                               - dsp->xa[ui]) * (w050 - wcum[ui])
-                                  / (wcum[ui + 1] - wcum[ui]);
-        }
-
-        if ((wcum[ui] <= w075) && (wcum[ui + 1] > w075)) {
-            cmb_assert_debug(wcum[ui + 1] > wcum[ui]);
-            x075 = dsp->xa[ui] + (dsp->xa[ui + 1]
-                               - dsp->xa[ui]) * (w075 - wcum[ui])
-                                  / (wcum[ui + 1] - wcum[ui]);
-        }
-    }
+    const double x025 = timeseries_wquantile(un, dsp->xa, wcum, w025);
+    const double x050 = timeseries_wquantile(un, dsp->xa, wcum, w050);
+    const double x075 = timeseries_wquantile(un, dsp->xa, wcum, w075);
 
     cmb_assert_debug((xmin <= x025) && (x025 <= x050)
                   && (x050 <= x075) && (x075 <= xmax));
